@@ -486,8 +486,10 @@ line into clusters of any widths and escape sequences). `ingest_line_utf8` leave
 `raw_line` is the CR-processed input line, `line` its text) — or, and only when the limit is positive and smaller than
 both the line's length in bytes and its width in columns, the result is `kept ++ rt` where `rt` is the truncation
 symbol (cut to the limit itself if it does not fit) and the text of `kept` is the longest prefix of the line's
-clusters that fits in `limit − width rt` columns (`fitCount`; `fitCount_fits`, `fitCount_maximal`), followed by one
-blank if a two-column cluster had to be split; something is cut off (`fitCount … < length`). -/
+clusters that fits in `limit − width rt` columns (`fitCount`; `fitCount_fits`, `fitCount_maximal`), followed by
+blanks if a cluster wider than one column had to be split (`Filler`: one for a two-column cluster; for a cluster wider
+than two columns — the fallback of `truncate_str_impl`, reached since fix d6cf9d0 — as many as columns are left:
+`IngestMachine.truncText_filler`, `fillerFor_fits`); something is cut off (`fitCount … < length`). -/
 theorem ingested_line_cut_only_when_too_long {ic : ICfg} {r : RawLine} {o : List Item} (h : ingestItems ic r = some o) :
     o = r.items ∨
     (0 < ic.maxLen ∧ ic.maxLen < utf8Len r.r1 ∧ ic.maxLen < gWidth (gsOf r.items) ∧
@@ -509,9 +511,16 @@ theorem ingested_line_whole_within_limit {ic : ICfg} {r : RawLine}
   ingestItems_whole h
 
 /-- **`raw_run_never_panics`**: delta on raw lines ends normally unless the `debug_assert!` of `truncate_str_impl`
-(a cluster wider than two columns at the cut; dev profile only) fires in the ingest step. -/
+(a cluster wider than two columns at the cut; dev profile only; removed by fix d6cf9d0) fires in the ingest step. -/
 theorem raw_run_never_panics {ic : ICfg} {cfg : Cfg} {rs : List RawLine} {ls : List L} (h : ingestAll ic rs = some ls) :
     ∃ m, runRaw ic cfg rs = .ok m := runRaw_total h
+
+/-- **`raw_run_never_panics_any_width`**: since fix d6cf9d0 — the `debug_assert!` no longer stands in front of the
+fallback of `truncate_str_impl`: `truncateAssertsWideCluster = false`, read from `src/ansi/mod.rs` on every run — delta
+on raw lines ends normally for every input, every limit, every truncation symbol and every partition of the lines
+into clusters of any widths (3 and more included). -/
+theorem raw_run_never_panics_any_width (hno : Generated.StyleTables.truncateAssertsWideCluster = false) (ic : ICfg)
+    (cfg : Cfg) (rs : List RawLine) : ∃ m, runRaw ic cfg rs = .ok m := runRaw_total_any hno ic cfg rs
 
 /-- **`hunk_line_row_of_ingested_line`** (whole runs on RAW input lines, git diff, unified hunk; every configuration,
 every limit). The input lines are `pre ++ r :: post`; every line is ingested (`IngestMachine.toL`: CR step, truncation
@@ -643,6 +652,25 @@ example : (match runRaw { ic20 with maxLen := 0 } {} (rawPre ++ longLine :: [mkR
     | .ok m => (m.out.filter (fun r => isBody r.kind)).map (fun r => (r.src, String.ofList r.text)) ==
         [(4, "ctx"), (5, "0123456789        abcdefghijklmnop"), (6, "new")]
     | .error _ => false) = true := by decide
+
+/-- a three-column cluster (`a` + two combining marks, say) right after the marker, limit 2: the line the binary
+aborted on before the fix (`@@ -1 +1 @@`, then ` <skin tone modifier> …` under `--max-line-length 2`) -/
+def wideClusterLine : RawLine :=
+  { mkRaw "+abcd" with items := [.text [⟨['+'], 1⟩, ⟨['a', 'b'], 3⟩, ⟨['c'], 1⟩, ⟨['d'], 1⟩]] }
+
+example : wideClusterLine.wf = true := by decide
+/-- on the tree with the assertion the ingest step fails on it; on the repaired tree the run ends and the line is
+the marker column, no blank (the mark takes the last column: nothing is left to fill) and the mark -/
+example : (if Generated.StyleTables.truncateAssertsWideCluster then
+      ingestItems { maxLen := 2, sym := symItems 1 } wideClusterLine = none
+    else (match runRaw { maxLen := 2, sym := symItems 1 } {} [mkRaw "@@ -1 +1 @@", wideClusterLine] with
+      | .ok m => (m.out.filter (fun r => isBody r.kind)).map (fun r => (r.src, r.kind, String.ofList r.text)) ==
+          [(1, .plus, "→")]
+      | .error _ => false) = true) := by decide
+/-- with a limit of 4 two columns are left next to the marker and the mark: two blanks -/
+example : (if Generated.StyleTables.truncateAssertsWideCluster then True
+    else ingestItems { maxLen := 4, sym := symItems 1 } wideClusterLine =
+      some ([.text [⟨['+'], 1⟩, ⟨[' '], 1⟩, ⟨[' '], 1⟩]] ++ symItems 1)) := by decide
 
 /-- `hfit` of `hunk_line_cut_is_marked` is needed: with `--max-line-length 1` nothing fits next to the mark, the
 line is the mark alone, has no marker column any more and is shown by the `_` arm of `handle_hunk_line` as it is
